@@ -189,4 +189,4 @@ func runBackoff(c BackoffCase) *vkit.Outcome {
 
 var propBackoff = vkit.NewProp([]string{P}, "c09backoff", genBackoff, runBackoff)
 
-func TestC09Backoff(t *testing.T) { propBackoff.Check(t) }
+func TestC09Backoff(t *testing.T) { propBackoff.CrashFile = true; propBackoff.Check(t) }
